@@ -279,6 +279,25 @@ def bulk_bits(c, a):
             break
         nbits += w
         i += 1
+    # still in write mode: earlier fields are given new values through bit seeks (backward, forward, backward again),
+    # the last one followed by a return to the end of what has been written
+    if a.get("patch"):
+        starts, at = [], 0
+        for (w, v) in fields:
+            starts.append(at)
+            at += w
+        n = len(fields)
+        for j in (25, n // 2, n - 3, 7, (BITBUF * 8) // max(sum(widths) // len(widths), 1) + 5):
+            if j < 0 or j >= n:
+                continue
+            w, v = fields[j]
+            nv = (~v) & ((1 << w) - 1)
+            if L.Hbitseek(bid, starts[j] // 8, starts[j] % 8) == FAIL or L.Hbitwrite(bid, w, nv) != w:
+                why.append("patching field %d (bit %d) failed" % (j, starts[j]))
+                break
+            fields[j] = (w, nv)
+        if L.Hbitseek(bid, at // 8, at % 8) == FAIL:
+            why.append("seek back to the end failed")
     L.Hendbitaccess(bid, 0)
     L.Hclose(fid)
     bits = _bits_of(fields)
@@ -333,6 +352,72 @@ def bulk_bits(c, a):
             probe(edge - 1, 7, 2, "last bit before the edge")
     L.Hendbitaccess(bid, 0)
     L.Hclose(fid)
+    o = {"match": not why}
+    if why:
+        o["why"] = why[:6]
+    return o
+
+
+# ------------------------------------------------------------------ n-bit datasets longer than the coder's buffer
+def _nbit_proj(u, w, start, length, sext, fill):
+    """the documented projection (specs/NBit.tla, Proj) of the w-bit pattern u"""
+    out = 0
+    top = (u >> start) & 1
+    for b in range(w):
+        if start - length + 1 <= b <= start:
+            bit = (u >> b) & 1
+        elif b > start and sext:
+            bit = top
+        else:
+            bit = 1 if fill else 0
+        out |= bit << b
+    return out
+
+
+@op("Bulk", "BulkNBit")
+def bulk_nbit(c, a):
+    L = c.L
+    h4api.declare_all(L)
+    w, n = a["w"], a["n"]
+    nt, fmt = {(8, True): (20, "b"), (8, False): (21, "B"), (16, True): (22, "h"), (16, False): (23, "H"),
+               (32, True): (24, "i"), (32, False): (25, "I")}[(w, bool(a["signed"]))]
+    esz = w // 8
+    mask = (1 << w) - 1
+    pats = [((k * 2654435761 + 40503 * (k % 7)) >> 3) & mask for k in range(n)]
+    ufmt = {8: "B", 16: "H", 32: "I"}[w]
+    raw = struct.pack("=%d%s" % (n, ufmt), *pats)
+    want = [_nbit_proj(u, w, a["start"], a["len"], a["sext"], a["fill"]) for u in pats]
+    why = []
+    p = c.path()
+    sd = L.SDstart(p, DFACC_CREATE)
+    s = L.SDcreate(sd, b"nb", nt, 1, h4api.i32arr([n]))
+    if L.SDsetnbitdataset(s, a["start"], a["len"], 1 if a["sext"] else 0, 1 if a["fill"] else 0) == FAIL:
+        why.append("SDsetnbitdataset failed")
+    b = CBuf(len(raw), raw)
+    if L.SDwritedata(s, h4api.i32arr([0]), None, h4api.i32arr([n]), b.ptr) == FAIL:
+        why.append("write failed")
+    b.free()
+    L.SDendaccess(s)
+    L.SDend(sd)
+    sd = L.SDstart(p, DFACC_READ)
+    s = L.SDselect(sd, 0)
+    # consecutive slabs of unequal sizes (the position does not move in between), a larger one after a smaller one,
+    # backward overlaps, forward skips, the tail, everything
+    slabs = [(0, 750), (750, 512), (1262, 1300), (100, 1100), (1200, 5), (1205, 2000), (3500, n - 3500), (0, 300), (300, 700),
+             (1000, 1024), (2024, 1), (2025, 1500), (0, n)]
+    for (s0, cnt) in slabs:
+        b = CBuf(cnt * esz)
+        if L.SDreaddata(s, h4api.i32arr([s0]), None, h4api.i32arr([cnt]), b.ptr) == FAIL:
+            why.append("read of %d values at %d failed" % (cnt, s0))
+        else:
+            got = struct.unpack("=%d%s" % (cnt, ufmt), b.raw())
+            for k in range(cnt):
+                if got[k] != want[s0 + k]:
+                    why.append("slab (%d,%d): value %d reads %#x, the projection of what was written is %#x" % (s0, cnt, s0 + k, got[k], want[s0 + k]))
+                    break
+        b.free()
+    L.SDendaccess(s)
+    L.SDend(sd)
     o = {"match": not why}
     if why:
         o["why"] = why[:6]
